@@ -71,6 +71,7 @@ def install_capture() -> list[str]:
         m = importlib.import_module(mn)
         m.exec = _rec_exec
         covered.append(mn)
+    install_import_recorder()
     _INSTALLED = True
     return covered
 
@@ -381,6 +382,8 @@ def holder_attr_sets(rec) -> list[tuple[str, str]]:
         if (isinstance(n, ast.Call) and isinstance(n.func, ast.Name) and n.func.id == "setattr" and len(n.args) == 3
                 and isinstance(n.args[0], ast.Name) and isinstance(n.args[1], ast.Constant) and isinstance(n.args[1].value, str)):
             out.append((n.args[0].id, n.args[1].value))
+        elif isinstance(n, ast.Attribute) and isinstance(n.ctx, ast.Store) and isinstance(n.value, ast.Name):
+            out.append((n.value.id, n.attr))          # cls.__mashumaro_f0_variants_..__ = {}
     return out
 
 
@@ -524,6 +527,7 @@ def run_schema(schema: dict, rng, exercise: int = 40) -> SchemaRun:
     sr.module = mod
     del CAPTURED[:]
     _GIDS.clear()
+    IMPORTS.clear()
     start = 0
     out = io.StringIO()
     try:
@@ -632,7 +636,7 @@ def run_schema(schema: dict, rng, exercise: int = 40) -> SchemaRun:
     reachable_oracle(sr, roots)
     # holder attributes read must exist on the object they are read from (after the build)
     for rec in sr.programs:
-        if "CodeBuilder(" in rec["code"]:
+        if _is_lazy_stub(rec["code"]):
             continue    # lazy stub: the attribute it reads is installed by the CodeBuilder call on the line before
         for root, attr in holder_attr_reads(rec):
             obj = real_globals(rec).get(root, rec["l"].get(root) if isinstance(rec["l"], dict) else None)
@@ -931,21 +935,7 @@ def classify(f: dict, d: dict, module: str, src: str = "") -> dict:
             cause = "local-class-in-lazy-stub"
 
         return {"kind": "generated-syntax-error", "cause": cause}
-    if kind == "build-error":
-        import re
-        cause = "other"
-        if src and "use_annotations=True" in src:
-            for m in re.finditer(r"^from [\w.]+ import (\w+)$", src, re.M):
-                nm = m.group(1)
-                if nm in BUILDER_ATTRS and re.search(r"(->|:) *['\"]?[\w\[, ]*\b" + nm + r"\.", src):
-                    cause = "annotation-name-in-builder-dict"
-        return {"kind": "build-error", "cause": cause}
     return {"kind": kind, "cause": "other"}
-
-
-# instance attributes of CodeBuilder: its __dict__ is the *local* namespace of evaluate_forward_ref
-BUILDER_ATTRS = {"cls", "lines", "globals", "resolved_type_params", "field_classes", "initial_type_args", "dialect", "default_dialect",
-                 "allow_postponed_evaluation", "format_name", "decoder", "encoder", "encoder_kwargs", "attrs", "attrs_registry"}
 
 
 def _only_in_union_type_test(prog: str, name: str) -> bool:
@@ -963,3 +953,196 @@ def _only_in_union_type_test(prog: str, name: str) -> bool:
 # names that a schema module's top-level package may collide with: parameters / locals of the
 # generated functions and names pre-populated in the builder's globals
 SHADOWABLE = {"value", "d", "cls", "self", "dialect", "key", "kwargs", "m", "variant", "MISSING", "Field"}
+
+
+# ---------------------------------------------------------------------------
+# round 3: the namespace as objects (Closed.world), binding expectations, namespace assembly
+# ---------------------------------------------------------------------------
+
+IMPORTS: dict[int, dict] = {}     # id(builder.globals) -> {"g0": dict snapshot at first import, "imps": [(name, obj)], "d": the dict}
+
+
+def install_import_recorder():
+    """record every ensure_object_imported / ensure_module_imported call (name, object) per builder namespace,
+    by rebinding the two methods on the class at run time (nothing in /repo is edited)"""
+    import importlib
+    from mashumaro.core.meta.code.builder import CodeBuilder
+    if getattr(CodeBuilder, "_c17_recorded", False):
+        return
+    orig_obj = CodeBuilder.ensure_object_imported
+    orig_mod = CodeBuilder.ensure_module_imported
+
+    def _slot(self):
+        d = self.globals
+        s = IMPORTS.get(id(d))
+        if s is None or s["d"] is not d:
+            s = {"g0": dict(d), "imps": [], "d": d}
+            IMPORTS[id(d)] = s
+        return s
+
+    def ensure_object_imported(self, obj, name=None):
+        _slot(self)["imps"].append((name or obj.__name__, obj))
+        return orig_obj(self, obj, name)
+
+    def ensure_module_imported(self, module):
+        s = _slot(self)
+        s["imps"].append((module.__name__, module))
+        package = module.__name__.split(".")[0]
+        s["imps"].append((package, importlib.import_module(package)))
+        return orig_mod(self, module)
+
+    CodeBuilder.ensure_object_imported = ensure_object_imported
+    CodeBuilder.ensure_module_imported = ensure_module_imported
+    CodeBuilder._c17_recorded = True
+
+
+class Oids:
+    """object -> small integer, per schema"""
+
+    def __init__(self):
+        self.ids: dict[int, int] = {}
+        self.keep: list = []
+
+    def __call__(self, obj) -> int:
+        i = self.ids.get(id(obj))
+        if i is None:
+            i = len(self.ids) + 1
+            self.ids[id(obj)] = i
+            self.keep.append(obj)
+        return i
+
+
+def _kind(obj) -> str | None:
+    if isinstance(obj, types.ModuleType):
+        return "KModule"
+    if isinstance(obj, type):
+        return "KClass"
+    if type(obj).__name__ == "AttrsHolder" or (type(obj).__module__ or "").startswith("mashumaro.codecs"):
+        return "KHolder"
+    return None        # opaque: instances, functions, input values
+
+
+class _StubInstalled:
+    pass
+
+
+def _is_lazy_stub(code: str) -> bool:
+    """def f(...):\n    CodeBuilder(...).add_(un)pack_method()\n    return x.f(...)  - nothing else in the body"""
+    try:
+        tree = ast.parse(code)
+    except SyntaxError:
+        return False
+    fns = [n for n in tree.body if isinstance(n, ast.FunctionDef)]
+    if len(fns) != 1 or len(fns[0].body) != 2:
+        return False
+    first = fns[0].body[0]
+    return isinstance(first, ast.Expr) and "CodeBuilder(" in ast.unparse(first) and isinstance(fns[0].body[1], ast.Return)
+
+
+def program_world(rec, oid: Oids, heap: dict, classes: list, partial_module_root: str | None = None) -> dict:
+    """the objects a program's dotted chains touch: -> {"glob_f", "glob_m", "expect", "chains_unres"}; `heap` (shared per schema)
+    is filled with oid -> [kind, {attr: oid}] for the attributes the chains mention (existence by real getattr)"""
+    out = {"glob_f": {}, "glob_m": {}, "expect": [], "chains_unres": []}
+    try:
+        tree = ast.parse(rec["code"])
+    except SyntaxError:
+        return out
+    v = _Chains()
+    v.visit(tree)
+    gf = real_globals(rec)
+    l = rec["l"] if isinstance(rec["l"], dict) else {}
+    roots_f: dict[str, object] = {}
+    global_loads = set()
+    for n in ast.walk(tree):
+        if isinstance(n, ast.Name) and isinstance(n.ctx, ast.Load):
+            global_loads.add(n.id)
+    for root, attrs, in_fn in v.chains:
+        if in_fn:
+            if root in gf:
+                obj = gf[root]
+            elif hasattr(builtins, root):
+                obj = getattr(builtins, root)
+            else:
+                continue
+            out["glob_f"][root] = oid(obj)
+            roots_f[root] = obj
+        else:
+            if root in l:
+                obj = l[root]
+            elif root in rec["g"]:
+                obj = rec["g"][root]
+            elif hasattr(builtins, root):
+                obj = getattr(builtins, root)
+            else:
+                continue
+            out["glob_m"][root] = oid(obj)
+        path = root
+        if partial_module_root is not None and root == partial_module_root:
+            continue        # the schema module did not finish executing: its own attributes are not all bound yet
+        for a in attrs:
+            k = _kind(obj)
+            if k is None:
+                break
+            ent = heap.setdefault(oid(obj), [k, {}])
+            try:
+                nxt = getattr(obj, a, _SENTINEL)
+            except Exception:
+                nxt = _SENTINEL
+            if nxt is _SENTINEL and a.startswith(("__mashumaro_", "__unpack_", "__pack_")) and _is_lazy_stub(rec["code"]):
+                # lazy stub that was never called: the attribute it reads is installed by the CodeBuilder call on the line before
+                # (a stated exception: recorded as present, bound to an opaque placeholder)
+                nxt = _StubInstalled
+                out["stub_installed"] = out.get("stub_installed", 0) + 1
+            if nxt is _SENTINEL:
+                out["chains_unres"].append(f"{path}.{a}")
+                break
+            ent[1][a] = oid(nxt)
+            obj = nxt
+            path += "." + a
+    # binding expectations: chains / alias names in this program that are the rendering of a schema class
+    fn_chains = [(r, a) for r, a, in_fn in v.chains if in_fn]
+    for c in classes:
+        try:
+            mod, qn = c.__module__, c.__qualname__
+        except AttributeError:
+            continue
+        if not isinstance(mod, str) or not isinstance(qn, str):
+            continue
+        if "<locals>" not in qn:
+            dotted = (mod + "." + qn).split(".")
+            root, path = dotted[0], dotted[1:]
+            if any(r == root and a[:len(path)] == path for r, a in fn_chains) and root in out["glob_f"]:
+                out["expect"].append([root, path, oid(c)])
+        alias = clean(mod + "." + qn)
+        if alias in global_loads and alias in gf and not any(alias in s for s in []):
+            out["glob_f"].setdefault(alias, oid(gf[alias]))
+            bound = gf[alias]
+            if bound is not c and getattr(bound, "__origin__", None) is c and getattr(bound, "__metadata__", None) is not None:
+                # the alias of a local class is bound to the Annotated[...] form of the annotation itself (it forwards attribute access
+                # to the class): the name denotes the annotation, not another class
+                out["expect"].append([alias, [], oid(bound)])
+            elif (bound is not c and isinstance(bound, type) and isinstance(c, type) and bound.__qualname__ == c.__qualname__
+                  and bound.__module__ == c.__module__ and "__slots__" in c.__dict__ and "__slots__" not in bound.__dict__):
+                # @dataclass(slots=True) re-creates the class after the mixin has compiled it: the class's own methods keep the
+                # alias of the pre-slots original (used for its variants registry only); not another user class
+                out["expect"].append([alias, [], oid(bound)])
+                out["pre_slots"] = out.get("pre_slots", 0) + 1
+            else:
+                out["expect"].append([alias, [], oid(c)])
+    return out
+
+
+def program_assembly(rec, oid: Oids) -> dict | None:
+    """namespace assembly, model input: g0 (restricted to imported names), the recorded imports, and the
+    function's real __globals__ on those names"""
+    bg = rec["l"].get("globals") if isinstance(rec["l"], dict) else None
+    if not isinstance(bg, dict):
+        return None
+    s = IMPORTS.get(id(bg))
+    if s is None or s["d"] is not bg or not s["imps"]:
+        return None
+    real = real_globals(rec)
+    names = list(dict.fromkeys(n for n, _ in s["imps"]))
+    return {"g0": [[n, oid(s["g0"][n])] for n in names if n in s["g0"]],
+            "imps": [[n, oid(o)] for n, o in s["imps"]],
+            "real": [[n, oid(real[n])] for n in names if n in real]}
